@@ -230,6 +230,19 @@ def configs(tier):
         for gen in ('sets_k_fold', 'sets_k_fold_pattern'):
             out.append({'routine': 'crossval', 'n_rdm': 3, 'n_cond': 7, 'method': 'cosine', 'gen': gen,
                         'models': ['fixed', 'fitted']})
+    # folds over a pattern descriptor whose values do not increase along the conditions (unique strings in
+    # non-alphabetical order; interleaved groups): prediction and test data must be cut alike
+    for gen in ('sets_k_fold', 'sets_k_fold_pattern'):
+        for pdn in ('name', 'cat'):
+            out.append({'routine': 'crossval', 'n_rdm': 3, 'n_cond': 6, 'method': 'cosine', 'gen': gen,
+                        'models': ['fixed', 'fitted'], 'pat_desc': pdn})
+    out.append({'routine': 'bootstrap_crossval', 'n_rdm': 3, 'n_cond': 6, 'method': 'cosine', 'boot_type': 'rdm',
+                'k_pattern': 2, 'k_rdm': 1, 'n_cv': 1, 'N': 2, 'rdm_desc': 'index', 'pat_desc': 'name',
+                'models': ['fixed', 'fitted']})
+    # dual bootstrap over descriptor GROUPS of RDMs (several RDMs per group), without and with folds
+    for (kp, kr) in [(1, 1), (2, 1)]:
+        out.append({'routine': 'eval_dual_bootstrap', 'n_rdm': 4, 'n_cond': 6, 'method': 'cosine', 'k_pattern': kp,
+                    'k_rdm': kr, 'n_cv': 1, 'N': 2, 'rdm_desc': 'grp', 'pat_desc': 'index', 'models': ['fixed', 'fitted']})
     # (array-typed, increasing pattern descriptor used for the folds: shares memory with the data)
     for gen in ('sets_k_fold', 'sets_k_fold_pattern'):
         out.append({'routine': 'crossval', 'n_rdm': 3, 'n_cond': 6, 'method': 'cosine', 'gen': gen,
@@ -392,7 +405,9 @@ def execute(cfg, env, seed):
                                         use_correction=False)
         elif r == 'eval_dual_bootstrap':
             res = EV.eval_dual_bootstrap(models, data, method=cfg['method'], fitter=fit_list, k_pattern=cfg['k_pattern'],
-                                         k_rdm=cfg['k_rdm'], N=cfg['N'], n_cv=cfg['n_cv'], use_correction=False)
+                                         k_rdm=cfg['k_rdm'], N=cfg['N'], n_cv=cfg['n_cv'], use_correction=False,
+                                         pattern_descriptor=cfg.get('pat_desc', 'index'),
+                                         rdm_descriptor=cfg.get('rdm_desc', 'index'))
         elif r == 'eval_dual_bootstrap_random':
             res = EV.eval_dual_bootstrap_random(models, data, method=cfg['method'], fitter=fit_list,
                                                 n_pattern=cfg['n_pattern'], n_rdm=cfg['n_test_rdm'], N=cfg['N'],
@@ -597,10 +612,26 @@ def judge(cfg, obs, ctx, case):
                 fit_ptr = _judge_folds(ctx, sig, case, cfg, spec, obs['fitter'], slab[:, :, rep], tr, te, fit_ptr)
         elif r == 'eval_dual_bootstrap':
             c = 0
+            ncl_all = np.asarray(res.noise_ceiling, dtype=float)
             for rep in range(n_cv):
                 for kind in range(3):
                     tr, te, ce = cvs[c][3]
                     fit_ptr = _judge_folds(ctx, sig, case, cfg, spec, obs['fitter'], slab[:, :, rep, kind], tr, te, fit_ptr)
+                    if cfg['k_pattern'] == 1 and cfg['k_rdm'] == 1 and ncl_all.shape == (2, N, n_cv, 3):
+                        # no folds: the noise ceiling of this resample is the leave-one-GROUP-out ceiling of
+                        # the resample itself, groups = the resampled units (rdm descriptor)
+                        sample = te[0][0]
+                        svecs = [list(map(float, v)) for v in sample.dissimilarities]
+                        grp = list(map(str, sample.rdm_descriptors[cfg.get('rdm_desc', 'index')]))
+                        try:
+                            lo, up = RP.boot_ceiling(svecs, grp, method)
+                        except ValueError:
+                            lo = up = None
+                        if lo is not None:
+                            _cmp(ctx, sig + '|noise-ceiling', case, float(ncl_all[0, i, rep, kind]), lo,
+                                 'lower ceiling of resample %d, bootstrap kind %d' % (i, kind))
+                            _cmp(ctx, sig + '|noise-ceiling', case, float(ncl_all[1, i, rep, kind]), up,
+                                 'upper ceiling of resample %d, bootstrap kind %d' % (i, kind))
                     c += 1
         else:
             tr, te, ce = cvs[0][3]
